@@ -155,6 +155,7 @@ class Exec:
                         if impl.t[k] is b:
                             views_of.setdefault(k, []).append(n)
             refs = None
+            D = {n: impl.t[n].data.copy() for n in impl.order}
             try:
                 if kind == "bwall":
                     L = csad.terminal_all_impl(impl)
@@ -267,6 +268,17 @@ class Exec:
                 if n in G and model.fam[n] not in fams and not same(impl.t[n].grad, G[n]):
                     self.failure = (i, st, "grad_changed", n, "gradient of an uninvolved tensor changed")
                     return
+            if kind in ("set", "iop", "out"):
+                # a tensor that owns its memory and that this update demonstrably did not reach (MyGrad gave the target memory of its
+                # own - a view left over from an earlier graph - and the tensor's data is untouched) was not "used": its gradient persists
+                tgt = impl.t[st[1]]
+                for n in impl.order:
+                    t = impl.t[n]
+                    if n == st[1] or n not in G or n not in D or G[n] is None or t.base is not None or t._creator is not None or n in used:
+                        continue
+                    if t.data.size and not np.shares_memory(t.data, tgt.data) and np.array_equal(t.data, D[n]) and not same(t.grad, G[n]):
+                        self.failure = (i, st, "grad_changed", n, "the update did not touch %s (no shared memory, data unchanged), yet its gradient changed from %s to %s" % (n, G[n], t.grad))
+                        return
             G = snap(impl)
             f = None
             if self.n_back == 0:
